@@ -16,6 +16,7 @@ import (
 	cnet "github.com/projectcalico/calico/libcalico-go/lib/net"
 	"github.com/projectcalico/calico/zzverif/sched"
 	"github.com/projectcalico/calico/zzverif/vclock"
+	"github.com/projectcalico/calico/zzverif/vk"
 )
 
 // vOp is one IPAM client call.
@@ -257,4 +258,122 @@ func anyCrashed(x *sched.Exec, n int) bool {
 		}
 	}
 	return false
+}
+
+// resolveRefs replaces "@h0.N" (N-th address set-up allocated to handle h0, in address order) by the
+// address; set-up is deterministic so this is computed once per scenario on a scratch world.
+func resolveRefs(sc *schedScenario) {
+	need := false
+	for _, ops := range sc.Threads {
+		for _, o := range ops {
+			if len(o.IP) > 0 && o.IP[0] == '@' {
+				need = true
+			}
+		}
+	}
+	if !need {
+		return
+	}
+	w := newIPAMWorld(sc.Cfg)
+	w.bind()
+	defer func() { vclock.Unbind(); w.close() }()
+	byHandle := map[string][]string{}
+	for _, op := range sc.Setup {
+		r := w.run(w.ctx, op, nil)
+		byHandle[op.Handle] = append(byHandle[op.Handle], r.IPs...)
+	}
+	for h := range byHandle {
+		sort.Strings(byHandle[h])
+	}
+	for ti := range sc.Threads {
+		for oi := range sc.Threads[ti] {
+			o := &sc.Threads[ti][oi]
+			if len(o.IP) > 0 && o.IP[0] == '@' {
+				var h string
+				var n int
+				fmt.Sscanf(o.IP, "@%2s.%d", &h, &n)
+				o.IP = byHandle[h][n]
+			}
+		}
+	}
+}
+
+
+// runSchedCheck is the body shared by the schedule-exploration checks: engine self-test, replay
+// mode, then one bounded exploration per scenario with the wall budget spread over them.
+func runSchedCheck(c *vk.Ctx, scs, all []*schedScenario, oracle schedOracle) {
+	msg, err := sched.SelfTest()
+	if err != nil {
+		c.ToolError(err.Error())
+		return
+	}
+	fmt.Println("INFO " + msg)
+	c.Rule("schedules = every interleaving of the threads' datastore operations (each Get/List/Create/Update/Delete of the real ipamClient on casstore is a scheduling point) within the preemption bound, times every placement of <= fault-budget faults {CAS conflict, client killed before the write, client killed after the write} at write operations; non-trivial = schedule with >=1 preemption or >=1 injected fault")
+	c.Assume("datastore = casstore: linearizable single-key compare-and-swap store with the etcd/Kubernetes backends' error semantics; values cross the boundary as JSON (second-granular timestamps)")
+	c.Assume("logical per-client clocks (1 ms per read, skew < 1 ms); reads of Node and IPAMConfig objects are not scheduling points (nobody writes them in these scenarios)")
+	allFaults := []sched.Fault{sched.FaultConflict, sched.FaultCrashBefore, sched.FaultCrashAfter}
+	if rf := c.ReplayFile(); rf != "" {
+		var d sched.Detail
+		if err := vk.LoadReplay(rf, &d); err != nil {
+			c.ToolError("cannot load replay: " + err.Error())
+			return
+		}
+		for _, sc := range all {
+			if sc.Name != d.Scenario {
+				continue
+			}
+			resolveRefs(sc)
+			tr, fails, err := sched.Replay(sc.build(oracle), sched.Options{MaxPreempt: 99, MaxFaults: 99, Faults: allFaults}, d.Choices)
+			if err != nil {
+				c.ToolError(err.Error())
+				return
+			}
+			for _, s := range tr {
+				fmt.Println("INFO   " + s)
+			}
+			c.Add("states", 1)
+			c.Add("transitions", int64(len(tr)))
+			c.Sample(map[string]any{"replayed": sc.describe(), "trace": tr})
+			for _, f := range fails {
+				c.Violation(f.Key, sched.Detail{Scenario: d.Scenario, Choices: d.Choices, Trace: tr, Msg: f.Msg})
+			}
+			return
+		}
+		c.ToolError("replay names unknown scenario " + d.Scenario)
+		return
+	}
+	opts := sched.Options{
+		MaxPreempt:    c.Pick(2, 3),
+		MaxFaults:     c.Pick(1, 2),
+		Faults:        []sched.Fault{sched.FaultConflict, sched.FaultCrashAfter},
+		HookBudget:    250,
+		Workers:       c.Pick(6, 8),
+		DetCheckEvery: c.Pick(50, 200),
+	}
+	if c.Thorough() {
+		// crash-before a write leaves the same datastore as crash-after the previous write, so the
+		// quick tier offers only crash-after (plus a never-started client = crash-before the first
+		// write, which is the same as not running it); the thorough tier offers all three anyway.
+		opts.Faults = allFaults
+	}
+	total := time.Duration(c.Pick(80, 22*60)) * time.Second
+	t0 := time.Now()
+	for i, sc := range scs {
+		resolveRefs(sc)
+		o := opts
+		o.Budget = (total - time.Since(t0)) / time.Duration(len(scs)-i)
+		if o.Budget < time.Second {
+			o.Budget = time.Second
+		}
+		tr, fails, err := sched.RunDefault(sc.build(oracle), o)
+		if err != nil {
+			c.ToolError(err.Error())
+			return
+		}
+		c.Sample(map[string]any{"scenario": sc.describe(), "default_schedule": tr, "oracle_failures": len(fails)})
+		sched.Explore(c, sc.build(oracle), o)
+	}
+	if n := vclock.UnboundReads(); n > 0 {
+		c.ToolError(fmt.Sprintf("%d clock reads came from goroutines without a logical clock (determinism not guaranteed)", n))
+	}
 }
